@@ -67,7 +67,10 @@ def dynamic_evaluate(evaluate_fn: Optional[Callable[[base.HyperValue], Any]],
   if exit_fn is not None and not callable(exit_fn):
     raise ValueError(
         f'\'exit_fn\' must be a callable object. Encountered: {exit_fn!r}.')
-  old_evaluate_fn = base.get_dynamic_evaluate_fn()
+  # NOTE: what is restored at exit is the state of the store that this scope
+  # writes (per-thread or process-wide), not the effective function, which may
+  # come from the other store.
+  saved_state = base.save_dynamic_evaluate_fn(per_thread)
   has_errors = False
   try:
     base.set_dynamic_evaluate_fn(evaluate_fn, per_thread)
@@ -76,7 +79,7 @@ def dynamic_evaluate(evaluate_fn: Optional[Callable[[base.HyperValue], Any]],
     has_errors = True
     raise
   finally:
-    base.set_dynamic_evaluate_fn(old_evaluate_fn, per_thread)
+    base.restore_dynamic_evaluate_fn(saved_state, per_thread)
     if not has_errors and exit_fn is not None:
       exit_fn()
 
